@@ -49,6 +49,33 @@ def build_c(ctx, san, tag, opt='-O1'):
     ctx.tick('c_build_' + tag, t)
     return objs, fl
 
+def build_c_kissel(ctx, objs, san, tag):
+    """the SAME code objects with the tables of the regenerated Kissel configuration: data/kissel_pe.dat is empty as shipped, so the 63
+    Kissel / cascade entry points only ever fail in the configuration of build_c; here kissel_pe.dat is regenerated from data/kissel by
+    tools/regen_kissel.py (as ctx.build_kissel_config('real') of vlib/core.py does for C03/C04/C08/C19), run through the real prdata, and
+    the resulting table file replaces xrayglob_inline.c.o.  -> object list"""
+    t = time.time()
+    root = ctx.sc.path('krootR'); os.makedirs(os.path.join(root, 'data'), exist_ok=True)
+    for f in os.listdir(os.path.join(REPO, 'data')):
+        src = os.path.join(REPO, 'data', f); dst = os.path.join(root, 'data', f)
+        if f != 'kissel_pe.dat' and not os.path.lexists(dst): os.symlink(src, dst)
+    p = subprocess.run([sys.executable, os.path.join(HERE, 'regen_kissel.py'), os.path.join(REPO, 'data', 'kissel'), os.path.join(root, 'data', 'kissel_pe.dat')],
+                       capture_output=True, text=True)
+    if p.returncode != 0: raise BuildError('regen_kissel.py failed: ' + p.stderr[-1000:])
+    inline = cbuild.build_prdata(ctx.sc, REPO, data_root=root, bname='bR')
+    tfl = cbuild.cflags(REPO, ctx.sc.path('b')) + ['-O0', '-g0', '-w']
+    if san and 'address' in san: tfl += ['-fsanitize=address']
+    if san and 'thread' in san: tfl += ['-fsanitize=thread']
+    o = ctx.sc.path('o_' + tag, 'xrayglob_inline_R.c.o')
+    cbuild.run(['clang-14'] + tfl + ['-c', inline, '-o', o])
+    ctx.tick('c_build_kissel_' + tag, t)
+    return [x for x in objs if not x.endswith('xrayglob_inline.c.o')] + [o]
+
+def kissel_family(meta):
+    """public entry points from which a function of src/kissel_pe.c is reachable (Kissel photoionisation + XRF cascade)"""
+    F = meta['functions']
+    return sorted(e for e in meta['classes'] if any(F[x]['file'] == 'kissel_pe.c' for x in closure(meta, e)))
+
 def extract_footprint(ctx):
     """-> (meta, lean text path in scratch, problems).  Nothing under /verif is written here."""
     t = time.time()
@@ -160,13 +187,21 @@ def closure(meta, entry):
             if c not in seen: seen.add(c); todo.append(c)
     return seen
 
-def explain_footprint(meta, allowed_exts, classes=('query', 'alloc', 'error', 'deprecated')):
-    """-> list of dict(entry, function, writes, exts) for every safe entry whose closure writes or calls outside the list"""
+STDIO_OUT = re.compile(r'^(?:(?:fprintf|vfprintf|fputs|fputc|putc|fwrite|fflush)@\w+|printf|vprintf|puts|putchar|perror)$')
+
+def explain_footprint(meta, allowed_exts, classes=('query', 'alloc', 'error', 'deprecated'), entries=None, diag_sites=None):
+    """-> list of dict(entry, function, writes, exts) for every safe entry whose closure writes or calls outside the list.
+    `entries`: explicit rows instead of the public classes (the `@user` rows).  `diag_sites` given: ALSO functions outside that list
+    that call a stdio output function (Lean: diagnostics_only_at_error_sites), reported under every public entry that reaches them."""
     F = meta['functions']; out = []
     offenders = {f: (d['writes'] + d['unknown_writes'], [x for x in d['exts'] if x not in allowed_exts]) for f, d in F.items()}
+    if diag_sites is not None:
+        for f, d in F.items():
+            bad = [x for x in d['exts'] if STDIO_OUT.match(x) and not (x == 'fprintf@stderr' and f in diag_sites)]
+            if bad: offenders[f] = (offenders[f][0], sorted(set(offenders[f][1] + bad)))
     offenders = {f: v for f, v in offenders.items() if v[0] or v[1]}
-    for e, c in sorted(meta['classes'].items()):
-        if c not in classes: continue
+    for e, c in sorted(meta['classes'].items()) if entries is None else [(e, 'row') for e in entries]:
+        if entries is None and c not in classes: continue
         cl = closure(meta, e)
         for f in sorted(cl & set(offenders)):
             out.append(dict(entry=e, function=f, file=F[f]['file'], writes=offenders[f][0], exts=offenders[f][1]))
